@@ -69,7 +69,8 @@ def unmarshal(data_in: bytes) -> typing.Tuple[int, int, FrameTypes]:
                                                    'Last byte error')
         return 8, channel_id, heartbeat.Heartbeat()
 
-    if not frame_size:
+    if frame_size is None or (frame_size == 0
+                              and frame_type != constants.FRAME_BODY):
         raise exceptions.UnmarshalingException('Unknown', 'No frame size')
 
     byte_count = constants.FRAME_HEADER_SIZE + frame_size + 1
